@@ -406,7 +406,7 @@ def run(res, info):
                 "non-trivial = at least one data line")
     res.assumptions = ["species names of at most 10 (KIDA) / 9 (Leeds) characters so that fixed-width columns keep a separating blank",
                        "UCLCHEM freeze-out lines get the window 0..30 K (documented in the class)"]
-    nfiles = 60 if res.tier == "quick" else 1500
+    nfiles = 200 if res.tier == "quick" else 3000
     fmts = ["kida", "umist", "leeds", "uclchem", "naunet", "krome"]
     for fmt in fmts:
         for i in range(nfiles):
